@@ -31,8 +31,10 @@ def main():
     keep = '--keep' in args
     tier = args[args.index('--tier') + 1] if '--tier' in args else 'quick'
     variant = os.path.basename(vdir.rstrip('/'))
-    if '/r2-' in vdir:
-        variant = 'r2' + variant
+    import re
+    m = re.search(r'/(r\d+)-', vdir)
+    if m:
+        variant = m.group(1) + variant
     tmp = tempfile.mkdtemp(prefix='seedconf-')
     wt = os.path.join(tmp, 'wt')
     res = dict(property=pid, variant=variant)
